@@ -553,6 +553,27 @@ VERB_CATALOGUE = [  # (fragment, reference spelling); every fragment is atomic (
 ]
 
 
+def _replace_node(root, old, new):
+    """Replace the node `old` (by identity) below `root` by `new`."""
+    fields = [slot for cls in type(root).__mro__ for slot in getattr(cls, '__slots__', ())] + list(getattr(root, '__dict__', {}))
+    if True:
+        for slot in fields:
+            v = getattr(root, slot, None)
+            if v is old:
+                setattr(root, slot, new)
+                return True
+            if isinstance(v, Node) and _replace_node(v, old, new):
+                return True
+            if isinstance(v, list):
+                for i, x in enumerate(v):
+                    if x is old:
+                        v[i] = new
+                        return True
+                    if isinstance(x, Node) and _replace_node(x, old, new):
+                        return True
+    return False
+
+
 def big_programs(rng, **kw):
     """Generator settings for models well past any small-size shortcut: up to 45 equations over up to 80 names."""
     args = dict(names=NAME_POOL + [f'v{i}' for i in range(60)] + [f'Q{i}_x' for i in range(20)], max_depth=2, max_eqs=45, max_names=80)
@@ -631,7 +652,23 @@ class RandomPrograms:
     def inject_conflict(self, prog):
         rng = self.rng
         eqs = prog.equations()
-        mode = rng.choice(['kind', 'double', 'double-identical'])
+        mode = rng.choice(['kind', 'double', 'double-identical', 'double-lookalike'])
+        if mode == 'double-lookalike':
+            # a second definition that differs from the first only in how one period is addressed: an integer offset versus a
+            # backticked label expression with the same *text* (X[-1] / X[`t-1`]) - different code, hence a different equation
+            cands = [(e, t) for e in eqs for t in list(e.terms())[1:] if isinstance(t, Var) and not e.has(Verb)]
+            if not cands:
+                mode = 'double'
+            else:
+                import copy as _copy
+                e0, t0 = rng.choice(cands)
+                e1 = _copy.deepcopy(e0)
+                k = [id(x) for x in list(e0.terms())[1:]].index(id(t0))
+                t1 = list(e1.terms())[1:][k]
+                label = 't' if t1.off == 0 else f't{t1.off:+d}'
+                _replace_node(e1, t1, Named(t1.name, t1.kind, label, '`'))
+                prog.stmts.append(e1)
+                return
         if mode == 'kind':
             terms = [t for e in eqs for t in e.terms() if isinstance(t, Var)]
             if terms:
